@@ -6,6 +6,8 @@ import (
 	"reflect"
 	"sort"
 	"strings"
+	"sync"
+	"sync/atomic"
 
 	"github.com/mattn/anko/env"
 	"github.com/mattn/anko/vm"
@@ -777,6 +779,48 @@ func streamGoConv(o *Out, r *rand.Rand, n int, thorough bool) {
 						Detail: fmt.Sprintf("invocation %d of the callback fails but the Go function went on (progress marker %d)", when, calls)})
 				}
 			}
+		}
+	}
+	// (4b') the same converted callback invoked by Go from several goroutines at once: every invocation sees the arguments
+	// of ITS call and its result goes back to ITS caller
+	{
+		e := env.NewEnv()
+		var wrong int64
+		var first atomic.Value
+		_ = e.Define("fanout", func(workers, rounds int64, cb func(int64, string) string) int64 {
+			var wg sync.WaitGroup
+			for w := int64(0); w < workers; w++ {
+				wg.Add(1)
+				go func(w int64) {
+					defer wg.Done()
+					tag := fmt.Sprintf("w%d", w)
+					for i := int64(0); i < rounds; i++ {
+						n := w*1000000 + i
+						want := fmt.Sprintf("%s:%d", tag, n)
+						if got := cb(n, tag); got != want {
+							if atomic.AddInt64(&wrong, 1) == 1 {
+								first.Store(fmt.Sprintf("cb(%d, %q) returned %q", n, tag, got))
+							}
+						}
+					}
+				}(w)
+			}
+			wg.Wait()
+			return workers * rounds
+		})
+		src := "fanout(8, 4000, func(n, s) { return s + \":\" + n })"
+		res, err, p := execGuard(e, src)
+		o.Sum.Evaluations++
+		o.Sum.Hist["callback-concurrent"]++
+		in := src + "   with fanout : func(workers, rounds int64, cb func(int64, string) string) calling cb(w*1000000+i, \"w<w>\") from `workers` goroutines"
+		switch {
+		case p != nil:
+			o.Fail(Failure{Oracle: "no-panic", Key: "goconv-panic:callback", Input: in, Detail: fmt.Sprint(p)})
+		case err != nil || res != int64(32000):
+			o.Fail(Failure{Oracle: "go-callbacks", Key: "goconv-callback-concurrent", Input: in, Detail: fmt.Sprintf("result %v, error %v", res, err)})
+		case atomic.LoadInt64(&wrong) != 0:
+			o.Fail(Failure{Oracle: "go-callbacks", Key: "goconv-callback-concurrent", Input: in,
+				Detail: fmt.Sprintf("%d of 32000 invocations saw another call's arguments or result; the first: %v", atomic.LoadInt64(&wrong), first.Load())})
 		}
 	}
 	// (4c) a Go value handed to a parameter of another named type with the same underlying type arrives as Go's own
